@@ -49,6 +49,13 @@ def opsGenHolo : List (String × Handler) := [
       (readRFld (Fld.npZeroPadCols h w) x (7 + 2 * h * w))
     toString (gsNumpyNRows0 h w) ++ " " ++ toString (gsNumpyNCols0 h w) ++ " " ++
       showFld (gsNumpyNRows0 h w) (gsNumpyNCols0 h w) r.1 ++ " " ++ showFld (gsNumpyNRows1 h w) (gsNumpyNCols1 h w) r.2),
+  -- gh_gs3d meth planes h w dx lam iterations distances(planes) fields(planes * 2hw) randomPhase(P0*P1) -> rows cols hologram
+  ("gh_gs3d", fun a => let x := a.toArray
+    let k := (x.getD 1 0).toNat; let h := (x.getD 2 0).toNat; let w := (x.getD 3 0).toNat
+    let r := gs3dNumpyN (npProp (x.getD 0 0) (fl (x.getD 4 0)) (fl (x.getD 5 0))) k h w (fun p => readFld w x (7 + k + p * 2 * h * w))
+      (x.getD 6 0).toNat (fun p => fl (x.getD (7 + p) 0)) (readRFld (Fld.npZeroPadCols h w) x (7 + k + k * 2 * h * w))
+    toString (gs3dNumpyNRows0 k h w) ++ " " ++ toString (gs3dNumpyNCols0 k h w) ++ " " ++
+      showFld (gs3dNumpyNRows0 k h w) (gs3dNumpyNCols0 k h w) r),
   -- gh_shift blur meth h w dx lam depth_shift kernel_length sigma phase(hw) -> phase_only(hw)
   ("gh_shift", fun a => let x := a.toArray
     let h := (x.getD 2 0).toNat; let w := (x.getD 3 0).toNat
